@@ -459,6 +459,9 @@ def main():
     # a debugging run without the proof engine describes less than the registered check covers: it goes to
     # build/, never to the committed evidence
     evdir = os.path.join(BUILD, "evidence-debug") if args.no_proof else os.path.join(VERIF, "evidence")
+    if os.environ.get("VERIF_EVIDENCE_DIR"):
+        # runs against a deliberately modified /repo (tools/seedtest.py) must not touch the committed evidence
+        evdir = os.environ["VERIF_EVIDENCE_DIR"]
     os.makedirs(evdir, exist_ok=True)
     json.dump(ev, open(os.path.join(evdir, pid + ".json"), "w"), indent=1)
 
